@@ -560,12 +560,23 @@ func (c18World) Run(prop string, ch *zsim.Choices, trace bool) *RunResult {
 		var baseLogger zerolog.Logger
 		if ch.Chance(1, 3) {
 			baseLogger = zerolog.New(sink).With().Str("base", "ctx").Logger()
+			if ch.Chance(1, 3) {
+				// the application keeps one logger: the same value is in the base context and
+				// is what the middleware is given; every request still gets a logger of its own
+				baseLogger = parent
+				zsim.Probe("base_context_logger_is_parent")
+			}
 			baseCtx = baseLogger.WithContext(context.Background())
 			zsim.Probe("base_context_logger")
 		}
 		R := 2 + ch.Intn(4)
 		for i := 0; i < R; i++ {
-			req, _ := http.NewRequest([]string{"GET", "POST", "PUT", "HEAD", "DELETE", "PATCH", "OPTIONS"}[(i+ch.Intn(7))%7], fmt.Sprintf("http://host%d.example:80%d/path/%d?q=%d", i, i, i, i), nil)
+			req, _ := http.NewRequest([]string{"GET", "POST", "PUT", "HEAD", "DELETE", "PATCH", "OPTIONS"}[(i+ch.Intn(7))%7], fmt.Sprintf("http://host%d.example:80%d/path/%d%s?q=%d%s", i, i, i, []string{"", "/with%20space", "/100%25/caf%C3%A9", "/a%3Fb=1/x"}[ch.Intn(4)], i, []string{"", "&r=a%20b"}[ch.Intn(2)]), nil)
+			if ch.Chance(1, 2) {
+				// what a server hands to a handler: an origin-form request URL (path and query only;
+				// the host is in req.Host)
+				req.URL.Scheme, req.URL.Host = "", ""
+			}
 			// remote addresses and hosts in every notation a server or a RealIP middleware leaves
 			// behind: host:port, bracketed IPv6 with port, bare IPv6, bare IPv4
 			req.RemoteAddr = []string{
